@@ -21,6 +21,7 @@ REQUIRED_COUNTERS = {"origin_checked": {"quick": 5000, "thorough": 50000},
                      "running_frames_checked": {"quick": 100, "thorough": 1000},
                      "recursive_running_targets": {"quick": 50, "thorough": 500},
                      "outermost_error_cases": {"quick": 40, "thorough": 400},
+                     "outermost_multi_error_cases": {"quick": 4, "thorough": 40},
                      "outermost_option_combinations": {"quick": 200, "thorough": 2000}}
 SHARD_TIMEOUT = {"quick": 400, "thorough": 5400}
 INTERPS = ["3.12", "3.11", "3.10", "3.9"]
@@ -346,6 +347,27 @@ def worker(spec):
                 res.violation(kind="extract_outermost re-raised a different exception", interp=interp)
         except Exception as ex:
             res.violation(kind="extract_outermost raised %r instead of the recorded error" % (ex,), interp=interp)
+        # several recorded errors and no frame: extract records them as a group, extract_outermost has to
+        # raise the same thing - not just the first of them
+        for nfail in (2, 3):
+            booms = [Boom("recorded %d" % i) for i in range(nfail)]
+            item = Item([Item(b) for b in booms])
+            s = stackscope.extract(item)
+            res.evaluations += 1
+            res.count("outermost_error_cases")
+            res.count("outermost_multi_error_cases")
+            res.nontrivial(interp, "custom-error", "raising x%d" % nfail)
+            rec = list(getattr(s.error, "exceptions", ())) if s.error is not None else []
+            if s.frames or len(rec) != nfail or any(a is not b for a, b in zip(rec, booms)):
+                res.violation(kind="recorded errors are not the raised ones", error=repr(s.error), interp=interp)
+                continue
+            try:
+                stackscope.extract_outermost(item)
+                res.violation(kind="extract_outermost did not re-raise the recorded errors", interp=interp)
+            except Exception as ex:  # noqa
+                got = list(getattr(ex, "exceptions", ()))
+                if type(ex) is not type(s.error) or len(got) != nfail or any(a is not b for a, b in zip(got, booms)):
+                    res.violation(kind="extract_outermost raised %r, extract recorded %r" % (ex, s.error), interp=interp)
         g1.close()
         g2.close()
 
